@@ -131,6 +131,29 @@ func checkC02(c *km.Ctx) {
 						}
 						if !fromCustom(x.Key) || !fromCustom(x.Value) {
 							okAll, bad = false, "extension from "+km.ValStr(x.Key)
+							continue
+						}
+						// every configured entry is copied: the only entries an iteration may skip are those with an
+						// empty name (no test on the entry's value decides whether it is copied)
+						for _, k := range c.F.At(x) {
+							for _, f := range k.List() {
+								for _, side := range []ssa.Value{f.X, f.Y} {
+									if side == nil || !fromCustom(side) {
+										continue
+									}
+									ex := km.Unwrap(side).(*ssa.Extract)
+									if ex.Index == 0 {
+										continue // the iterator's own "more entries" flag
+									}
+									emptyName := false
+									if cs, isC := km.ConstString(f.Y); isC && cs == "" && f.Op == token.NEQ && ex.Index == 1 {
+										emptyName = true
+									}
+									if !emptyName {
+										okAll, bad = false, "a configured entry is copied only when "+f.String()
+									}
+								}
+							}
 						}
 					case *ssa.Call:
 						name := km.CalleeFull(x.Common())
@@ -401,6 +424,7 @@ func checkC02(c *km.Ctx) {
 	}
 
 	// ---------------- R-C02-5
+	checkNormaliser(c, s)
 	if ca := c.MustFunc("R-C02-5", "cmd/keymasterd", "(*RuntimeState).checkAuth"); ca != nil {
 		checkAuthBits(c, s, ca, "R-C02-5")
 	}
@@ -518,4 +542,83 @@ func isBufferStringOfFormFile(fn *ssa.Function, v ssa.Value, key string) bool {
 		return false
 	}
 	return bufferFilledFromFormFile(fn, km.Unwrap(cl.Common().Args[0]), key)
+}
+
+// checkNormaliser: reprocessUsername applies each configured step on its own: the name is lower-cased unless
+// normalisation is disabled, and it passes through the Okta user-name filter whenever a filter is configured -
+// whatever the other setting says. (The name certificates carry and the name the request path is compared
+// with are both outputs of this function.)
+func checkNormaliser(c *km.Ctx, s *km.Sem) {
+	fn := c.MustFunc("R-C02-5", "cmd/keymasterd", "(*RuntimeState).reprocessUsername")
+	if fn == nil {
+		return
+	}
+	var through func(k km.Conj, v ssa.Value, pred func(*ssa.Call) bool, depth int) bool
+	through = func(k km.Conj, v ssa.Value, pred func(*ssa.Call) bool, depth int) bool {
+		v = km.Unwrap(v)
+		if depth > 8 {
+			return false
+		}
+		switch x := v.(type) {
+		case *ssa.Call:
+			if pred(x) {
+				return true
+			}
+			for _, a := range x.Common().Args {
+				if through(k, a, pred, depth+1) {
+					return true
+				}
+			}
+		case *ssa.Convert:
+			return through(k, x.X, pred, depth+1)
+		case *ssa.Phi:
+			// the operand this path took, when the path says so; otherwise every operand
+			for _, f := range k.List() {
+				if f.Op == token.EQL && f.X == ssa.Value(x) && f.Y != nil {
+					if _, isC := f.Y.(*ssa.Const); !isC {
+						return through(k, f.Y, pred, depth+1)
+					}
+				}
+			}
+			for _, e := range x.Edges {
+				if !through(k, e, pred, depth+1) {
+					return false
+				}
+			}
+			return len(x.Edges) > 0
+		}
+		return false
+	}
+	isFilter := func(cl *ssa.Call) bool {
+		return strings.HasPrefix(km.CalleeFull(cl.Common()), "(*regexp.Regexp).ReplaceAll") && mentionsField(cl.Common().Args[0], "oktaUsernameFilterRE")
+	}
+	isLower := func(cl *ssa.Call) bool { return km.CalleeFull(cl.Common()) == "strings.ToLower" }
+	n := 0
+	for _, rc := range s.RetCases(fn) {
+		n++
+		v := rc.Results[0]
+		var problems []string
+		for _, k := range rc.State {
+			noFilter, disabled := false, false
+			val := km.Unwrap(v)
+			for _, f := range k.List() {
+				if f.Op == token.EQL && km.IsNilConst(f.Y) && mentionsField(f.X, "oktaUsernameFilterRE") {
+					noFilter = true
+				}
+				if f.Op == token.ILLEGAL && f.Pol && mentionsField(f.X, "DisableUsernameNormalization") {
+					disabled = true
+				}
+			}
+			if !noFilter && !through(k, val, isFilter, 0) {
+				problems = appendUniq(problems, "a configured Okta user-name filter is not applied on some path")
+			}
+			if !disabled && !through(k, val, isLower, 0) {
+				problems = appendUniq(problems, "the name is not lower-cased although normalisation is enabled")
+			}
+		}
+		c.R.Add("R-C02-5", km.FuncName(fn), "normaliser applies each configured step", posOf(c, rc.Ret), "every returned name is lower-cased unless normalisation is disabled, and filtered whenever a filter is configured", sprintf("%v", problems), len(problems) == 0)
+	}
+	if n == 0 {
+		c.R.AnchorLost("R-C02-5", "returns of reprocessUsername")
+	}
 }
